@@ -16,19 +16,19 @@ CLAIMED = {
     "C01": ("exploration", "3 C01", TECH + "K schedules per scenario, reference k-way merge model + trace invariant printed=min(pending)",
             "Seeded sampling of (sources x schedules); byte-exact comparison with an independent merge model and online "
             "argmin/pending-set invariants over the coordinator trace. Evidence, not proof."),
-    "C06": ("exploration", "3 C06", TECH + "K schedules per scenario must give identical stdout/exit status; deadlock and step-budget detection; protocol invariants over the trace",
+    "C06": ("exploration", "3 C06", TECH + "K schedules per scenario must give identical stdout/exit status; deadlock and step-budget detection; protocol invariants over the trace; simulated deadlines for timed channel operations; short writes on stdout in one run of four",
             "Seeded search over interleavings of the real coordinator/worker code with the channel, locks and thread "
             "scheduling owned by the simulator; reports distinct interleavings reached. Sampling, not enumeration."),
 }
 
 CLAIMED.update({
-    "C18": ("fault_enumeration", "3 C18", TECH + "SIGINT delivered at every (thorough) / a stratified sample (quick) of scheduler steps of a base run, plus process exit as a crash point; oracle = private TMPDIR empty after exit, exit within a step bound after the last signal",
+    "C18": ("fault_enumeration", "3 C18", TECH + "SIGINT delivered at every (thorough) / a stratified sample (quick) of scheduler steps of a base run, plus process exit as a crash point, plus write-level faults from the preload shim (TMPDIR full after N bytes = ENOSPC, stdout reader gone after N bytes = EPIPE, alone and with a SIGINT); oracle = private TMPDIR empty after exit, exit within a step bound after the last signal, no crash/deadlock, after EPIPE stdout is a prefix of the fault-free output",
             "Crash-point enumeration over the simulated signal thread: the real handler closure, the real temp-file code and "
             "the real coordinator run under the baton scheduler; leaks are classified by life-cycle position."),
     "C17": ("exploration", "3 C17", TECH + "same log generator at n, 2n, 4n blocks under adversarial schedules (starved coordinator / worker); --summary high-water marks must be flat and under a computed bound",
             "Whether a printed message can be released is decided by the worker/coordinator interleaving, which the simulator "
             "owns; metamorphic over size. Sampling."),
-    "C07": ("fault_enumeration", "3 C07", TECH + "stored-data faults on the simulated disk (every truncation point and single-byte corruption of small valid files of each kind, random bytes, mismatching names) alone and beside valid sources; oracle = exit status in {0,1}, no panic/deadlock/livelock, co-sources intact",
+    "C07": ("fault_enumeration", "3 C07", TECH + "stored-data faults on the simulated disk (every truncation point and single-byte corruption of small valid files of each kind, random bytes, mismatching names, structured tails after a valid stream: second member / file twice / zero padding / stray lengths) alone and beside valid sources; oracle = exit status in {0,1}, no panic/deadlock/livelock, co-sources intact",
             "Thorough tier enumerates the complete truncation/corruption space of small valid files of each kind and "
             "container; quick tier samples it. No-crash/no-hang is decided by the scheduler (deadlock, step budget) and exit status."),
 })
@@ -68,9 +68,9 @@ CLAIMED.update({
 
 CLAIMED.update({
     "C09": ("exploration", "3 C09", TECH + "independent reader `journalctl --file -o export` (binary-safe export parsed): entry order, receive times and field sets vs s4's ten renderings split on a separator marker; windows on exact microsecond receive times; all containers",
-            "Oracle = independent reader over shipped inputs; renderings, windows, zones, containers sampled."),
+            "Oracle = independent reader over generated journals (sim/journalgen.py; used only when journalctl reads back exactly what was written) and the shipped ones; renderings, windows, zones, containers sampled."),
     "C10": ("exploration", "3 C10", TECH + "independent dump with the evtx crate (/verif/aux) gives (enumeration index, record id, creation time); expected = stable time sort + inclusive window; record ids parsed from s4's separator-split output; bounds placed inside the out-of-order region",
-            "Oracle = independent dump over shipped inputs; windows and containers sampled."),
+            "Oracle = independent dump over the shipped file and re-stamped copies of it (sim/evtxmut.py: any multiset of creation times, chunk CRCs recomputed); windows and containers sampled."),
 })
 
 NOT_APPLICABLE = {
